@@ -81,10 +81,36 @@ def coq_make(targets=None, timeout=3000, jobs=16):
         return p.returncode == 0, (p.stdout + p.stderr)
 
 
-def audit_sources():
-    """forbidden declarations anywhere in the development (comments stripped)."""
+def coq_deps(rel_files):
+    """transitive closure of CyVerif dependencies of the given theories-relative .v files"""
+    seen, todo = set(), list(rel_files)
+    while todo:
+        f = todo.pop()
+        if f in seen:
+            continue
+        seen.add(f)
+        path = os.path.join(COQ, "theories", f)
+        if not os.path.exists(path):
+            continue
+        txt = strip_coq_comments(open(path).read())
+        for m in re.finditer(r"From\s+CyVerif\s+Require\s+(.*?)\.(?=\s|$)", txt, re.S):
+            for mod in m.group(1).split():
+                if mod in ("Import", "Export"):
+                    continue
+                todo.append(mod.replace(".", "/") + ".v")
+        for m in re.finditer(r"\bCyVerif\.([A-Za-z_][\w']*(?:\.[A-Za-z_][\w']*)*)", txt):
+            todo.append(m.group(1).replace(".", "/") + ".v")
+    return sorted(seen)
+
+
+def audit_sources(rel_files=None):
+    """forbidden declarations in the development (comments stripped); restricted to the
+    dependency closure of rel_files (theories-relative) when given."""
     bad = []
-    for rel in coq_files():
+    files = coq_files() if rel_files is None else ["theories/" + f for f in coq_deps(rel_files)]
+    for rel in files:
+        if not os.path.exists(os.path.join(COQ, rel)):
+            continue
         txt = strip_coq_comments(open(os.path.join(COQ, rel)).read())
         for m in FORBIDDEN.finditer(txt):
             bad.append("%s: %s" % (rel, m.group(0)))
@@ -228,7 +254,8 @@ class Ctx:
         for a in axioms:
             if not any(re.search(pat, a) for pat in ALLOWED_AXIOMS):
                 self.proof_failures.append("theorem depends on non-library axiom %s" % a)
-        bad = audit_sources()
+        bad = audit_sources([tf] + ["Extract/X_%s.v" % m for m in getattr(mod, "EXTRACTS", [])])
+        res["audited_files"] = coq_deps([tf])
         if bad:
             self.proof_failures.append("forbidden declarations: " + "; ".join(bad[:5]))
         res["discharged"] = res["obligations"] if not self.proof_failures else 0
